@@ -193,7 +193,7 @@ def main(argv):
     rng = random.Random(seed)
     out = []
     for c in corpus:
-        fn = run_stop if what == 'stop' else run_iterq
+        fn = run_stop if what == 'stop' else (run_early if what == 'early' else run_iterq)
         r = fn(c['cfg'], detsched.ReplayStrategy([tuple(d) for d in c['decisions']]))
         r['cfg'], r['strategy'] = c['cfg'], 'corpus'
         out.append(r)
@@ -202,6 +202,10 @@ def main(argv):
             cfg = gen_stop_cfg(rng)
             kind, st = make_strategy(rng)
             r = run_stop(cfg, st)
+        elif what == 'early':
+            cfg = gen_early_cfg(rng)
+            kind, st = make_strategy(rng)
+            r = run_early(cfg, st)
         else:
             cfg = gen_cfg(rng)
             kind, st = make_strategy(rng)
@@ -211,6 +215,121 @@ def main(argv):
     json.dump(out, open(outp, 'w'))
 
 
+
+
+def gen_early_cfg(rng):
+    m = rng.choice([1, 1, 2])
+    rounds = rng.choice([2, 2, 3])
+    items, k = [], 0
+    for r in range(rounds):
+        row = []
+        for s_ in range(m):
+            cnt = rng.choice([0, 1, 2, 3])
+            row.append(list(range(k, k + cnt)))
+            k += cnt
+        items.append(row)
+    return {'nsup': m, 'ncons': 1, 'qcap': rng.choice([0, 0, 2, 3]), 'rounds': rounds, 'items': items,
+            'late_iter': [rng.random() < 0.6 for _ in range(rounds)], 'early_put': [rng.random() < 0.7 for _ in range(rounds)]}
+
+
+def run_early(cfg, strategy, max_steps=40000):
+    """rounds in which the suppliers of the next round may start putting before renew() (put_end(wait_for_renew=True)), and
+    in which somebody iterates once more over a round that is already finished; one consumer per round"""
+    from mpservice import queue as mq
+    S = detsched.Sched(strategy, max_steps=max_steps)
+    S.keep_log = False
+    m = cfg['nsup']
+    res = {'outcome': None, 'rounds': []}
+    vqueue = vprims.make_queue_ns()
+    tok_names = iter(['spare', 'applied', 'used'])
+
+    class TokQueue(vprims.VQueue):
+        def __init__(self, maxsize=0):
+            super().__init__(maxsize, name=next(tok_names, 'tok-extra'))
+
+    def body():
+        import threading
+        mainq = vprims.VQueue(cfg['qcap'], name='q')
+        iq = _make_iq(mq, mainq, m, vqueue, TokQueue)
+        errors_all = []
+        sup_threads = None
+        for r in range(cfg['rounds']):
+            got, errors = [[]], []
+
+            def supplier(s, r=r, errors=errors, wait=(r > 0)):
+                try:
+                    for x in cfg['items'][r][s]:
+                        iq.put(x)
+                    iq.put_end(wait_for_renew=wait)
+                except detsched.Abort:
+                    raise
+                except BaseException as e:  # noqa
+                    errors.append(f'supplier {s}: {e!r}'[:120])
+
+            def consumer(got=got, errors=errors):
+                try:
+                    for z in iq:
+                        got[0].append(z)
+                except detsched.Abort:
+                    raise
+                except BaseException as e:  # noqa
+                    errors.append(f'consumer: {e!r}'[:120])
+
+            if sup_threads is None:
+                sup_threads = [threading.Thread(target=supplier, args=(s,), name=f'sup-{s}-r{r}') for s in range(m)]
+                for t in sup_threads:
+                    t.start()
+            tc = threading.Thread(target=consumer, name=f'con-r{r}')
+            tc.start()
+            tc.join()
+            for t in sup_threads:
+                t.join()
+            sup_threads = None
+            info = {'got': got, 'errors': errors, 'late': None}
+            res['rounds'].append(info)
+            if r + 1 < cfg['rounds']:
+                if cfg['early_put'][r]:
+                    # the suppliers of the next round start before renew(): their items wait in the queue
+                    errors2 = []
+
+                    def supplier2(s, r2=r + 1, errors2=errors2):
+                        try:
+                            for x in cfg['items'][r2][s]:
+                                iq.put(x)
+                            iq.put_end(wait_for_renew=True)
+                        except detsched.Abort:
+                            raise
+                        except BaseException as e:  # noqa
+                            errors2.append(f'supplier {s}: {e!r}'[:120])
+                    sup_threads = [threading.Thread(target=supplier2, args=(s,), name=f'sup-{s}-r{r + 1}') for s in range(m)]
+                    info['next_errors'] = errors2
+                    for t in sup_threads:
+                        t.start()
+                if cfg['late_iter'][r]:
+                    try:
+                        info['late'] = list(iq)          # one more iteration over the finished round
+                    except detsched.Abort:
+                        raise
+                    except BaseException as e:  # noqa
+                        info['late'] = ['error', repr(e)[:100]]
+                try:
+                    iq.renew()
+                except detsched.Abort:
+                    raise
+                except BaseException as e:  # noqa
+                    info['renew_error'] = repr(e)[:120]
+                    break
+        res['outcome'] = ['finished']
+
+    extra = [(mq, 'queue', vqueue), (mq, 'perf_counter', vprims.VClockNS.perf_counter),
+             (mq, 'threading', vprims.make_threading_ns())]
+    with inject.scheduled_world(extra):
+        _, exc = S.run(body)
+    if exc is not None:
+        res['outcome'] = ['harness-error', repr(exc)]
+    res.update({'events': [], 'verdict': S.verdict or 'ok', 'blocked': S.blocked_at_end, 'leaked': S.leaked, 'steps': S.steps,
+                'error': S.error, 'decisions': S.decisions})
+    return res
 
 
 def run_stop(cfg, strategy, max_steps=40000):
